@@ -57,6 +57,17 @@ theorem setAttr_frame (t : Tree) (u : Nat) (k v : String) (n : Node)
     intro e; exact ⟨rfl, rfl⟩
   · exact hn
 
+/-- re-typing an entity changes, in the file, only the target entity's node (its type link): every
+    other node, and with it every other entity's type link, is as before -/
+theorem setTyp_frame (t : Tree) (u ty : Nat) (n : Node)
+    (hn : n ∈ (fileOf (step t (.setTyp u ty)).1).nodes) (hu : n.ent.uid ≠ u) :
+    n ∈ (fileOf t).nodes := by
+  simp only [step] at hn
+  split at hn
+  · refine update_frame _ ?_ t u n hn hu
+    intro e; exact ⟨rfl, rfl⟩
+  · exact hn
+
 theorem setDset_frame (t : Tree) (u : Nat) (k v : String) (n : Node)
     (hn : n ∈ (fileOf (step t (.setDset u k v)).1).nodes) (hu : n.ent.uid ≠ u) :
     n ∈ (fileOf t).nodes := by
